@@ -3514,6 +3514,9 @@ fn main() {
         }
         // leave room for a sample of the other sections
         r.samples.truncate(3);
+        // the virtual-time verdicts must survive a later section that gets stuck on real threads until the lane
+        // watchdog fires (e.g. a change that kills the receiver thread makes every real-thread case wait out its joins)
+        r.checkpoint();
     }
 
     #[cfg(not(miri))]
